@@ -4,9 +4,9 @@ from ..drivers import objects as drv
 ID = "C20"
 LEVEL = "exploration"
 TECHNIQUE = ("runtime monitoring: frame condition across objects - encodings and item identities of all other live instances snapshotted around every mutation; fresh default-constructed instances checked for emptiness; a heap monitor walks the object graphs of all live instances after every step and asserts that the mutable objects reachable from two separately created instances are disjoint")
-RULE = ("interleavings (10-40 steps) over a pool of 2-4 live instances per class (3D, force/torque, EMG, events, platform calibration, platform data, optical setup, 2-D data, calibration): construct with / without items (bare constructors as a caller would use them), decode the same bytes twice (two streams, one rewound stream, two reads of one stored block through one Tdf object in / across / outside contexts), bind one item into a second block under another channel, edit a header array in place, append / remove an item, edit an item field, edit a sample in place; non-trivial = every interleaving")
+RULE = ("before every step each live instance of the four labelled kinds answers every label lookup from its own first item with that label; interleavings (10-40 steps) over a pool of 2-4 live instances per class (3D, force/torque, EMG, events, platform calibration, platform data, optical setup, 2-D data, calibration): construct with / without items (bare constructors as a caller would use them), decode the same bytes twice (two streams, one rewound stream, two reads of one stored block through one Tdf object in / across / outside contexts), bind one item into a second block under another channel, edit a header array in place, append / remove an item, edit an item field, edit a sample in place; non-trivial = every interleaving")
 ASSUMPTIONS = ["the harness never passes the same list object to two constructors"]
-REQUIRED = {t: "oracle:C20.fresh-instance-empty oracle:C20.others-unchanged oracle:C20.heap-disjoint oracle:C20.two-decodes-are-two-objects c20:file-read-twice c20:decode-twice-one-stream c20:item-bound-into-a-second-block c20:data2D c20:calib c20:optical c20:events c20:data3D c20:platCal".split() for t in ("quick", "thorough")}
+REQUIRED = {t: "oracle:C20.fresh-instance-empty oracle:C20.others-unchanged oracle:C20.heap-disjoint oracle:C20.two-decodes-are-two-objects oracle:C20.label-lookup-answers-from-own-items c20:file-read-twice c20:decode-twice-one-stream c20:item-bound-into-a-second-block c20:data2D c20:calib c20:optical c20:events c20:data3D c20:platCal".split() for t in ("quick", "thorough")}
 
 
 def plan(tier, seed):
